@@ -284,3 +284,62 @@ pub fn c15_twin_reach() {
     let r = <Option<u8>>::_deserialize_full_inner(&mut sl);
     assert!(r.is_ok(), "TWIN: must be violated (foreign tags exist)");
 }
+
+// ---- a foreign tag is rejected *as such*, whatever follows it ---------------------------
+//
+// "Every tag value that no variant writes is rejected with an invalid-tag error carrying
+// exactly that tag value": the verdict may not depend on the bytes after the tag.  The
+// stream here consists of the tag alone (one byte; one pointer-width word for derived
+// enums), so a reader that touches the payload before it has validated the tag returns a
+// read error or panics instead (seeded change C15c).  Both modes; the full-copy reader
+// runs over `SliceWithPos` (a `ReadNoStd`) and over the exact `ReaderWithPos`.
+fn tag_only8<T: DeserializeInner, const EPS: bool>(valid: &[u8]) {
+    let b: [u8; 1] = any();
+    let mut i = 0;
+    while i < valid.len() { assume(b[0] != valid[i]); i += 1; }
+    let mut sl = SliceWithPos::new(&b[..]);
+    let r = if EPS { T::_deserialize_eps_inner(&mut sl).map(|x| { core::mem::forget(x); }) } else { T::_deserialize_full_inner(&mut sl).map(|x| { core::mem::forget(x); }) };
+    match r {
+        Err(DE::InvalidTag(t)) => { crate::cover!(true, "InvalidTag"); assert!(t == b[0] as usize, "C15: InvalidTag carries exactly the offending tag value"); }
+        Ok(()) => { assert!(false, "C15: a foreign tag was mapped to a variant"); }
+        Err(e) => { core::mem::forget(e); assert!(false, "C15: a foreign tag at the end of the stream is rejected with InvalidTag (the tag is validated before the payload is touched)"); }
+    }
+}
+fn tag_only64<T: DeserializeInner, const EPS: bool>(nvariants: usize) {
+    let t: usize = any();
+    assume(t >= nvariants);
+    let b = t.to_ne_bytes();
+    let mut al = Al::<16>::zero();
+    let mut i = 0;
+    while i < 8 { al.0[i] = b[i]; i += 1; }
+    let mut sl = SliceWithPos::new(&al.0[..8]);
+    let r = if EPS { T::_deserialize_eps_inner(&mut sl).map(|x| { core::mem::forget(x); }) } else { T::_deserialize_full_inner(&mut sl).map(|x| { core::mem::forget(x); }) };
+    match r {
+        Err(DE::InvalidTag(e)) => { crate::cover!(true, "InvalidTag"); assert!(e == t, "C15: InvalidTag carries exactly the offending tag value"); }
+        Ok(()) => { assert!(false, "C15: a foreign tag was mapped to a variant"); }
+        Err(e) => { core::mem::forget(e); assert!(false, "C15: a foreign tag at the end of the stream is rejected with InvalidTag (the tag is validated before the payload is touched)"); }
+    }
+}
+macro_rules! to8 {
+    ($($name:ident: $t:ty, $eps:literal, [$($v:expr),*]);* $(;)?) => {$(
+        #[cfg_attr(kani, kani::proof)] #[cfg_attr(kani, kani::unwind(5))]
+        pub fn $name() { let valid = [$(tag8(&$v)),*]; tag_only8::<$t, $eps>(&valid) }
+    )*};
+}
+to8!(
+    c15_tagonly_option_u32_full: Option<u32>, false, [None::<u32>, Some(0u32)];
+    c15_tagonly_option_u32_eps: Option<u32>, true, [None::<u32>, Some(0u32)];
+    c15_tagonly_bound_u32_full: Bound<u32>, false, [Bound::<u32>::Unbounded, Bound::Included(0u32), Bound::Excluded(0u32)];
+    c15_tagonly_bound_u32_eps: Bound<u32>, true, [Bound::<u32>::Unbounded, Bound::Included(0u32), Bound::Excluded(0u32)];
+    c15_tagonly_bound_vec_eps: Bound<Vec<u16>>, true, [Bound::<Vec<u16>>::Unbounded, Bound::Included(Vec::<u16>::new()), Bound::Excluded(Vec::<u16>::new())];
+    c15_tagonly_cf_full: ControlFlow<u8, u16>, false, [ControlFlow::<u8, u16>::Break(0), ControlFlow::<u8, u16>::Continue(0)];
+    c15_tagonly_cf_eps: ControlFlow<u8, u16>, true, [ControlFlow::<u8, u16>::Break(0), ControlFlow::<u8, u16>::Continue(0)];
+);
+#[cfg_attr(kani, kani::proof)] #[cfg_attr(kani, kani::unwind(10))]
+pub fn c15_tagonly_en_u8_full() { tag_only64::<En<u8>, false>(3) }
+#[cfg_attr(kani, kani::proof)] #[cfg_attr(kani, kani::unwind(10))]
+pub fn c15_tagonly_en_u8_eps() { tag_only64::<En<u8>, true>(3) }
+#[cfg_attr(kani, kani::proof)] #[cfg_attr(kani, kani::unwind(10))]
+pub fn c15_tagonly_e1_full() { tag_only64::<E1, false>(1) }
+#[cfg_attr(kani, kani::proof)] #[cfg_attr(kani, kani::unwind(10))]
+pub fn c15_tagonly_e2_eps() { tag_only64::<E2, true>(2) }
